@@ -9,7 +9,7 @@ From PJ.Model Require Import Base Terms.
 From PJ.Model Require Lookup Encoder.
 From PJ.Tie Require Import PyPrims.
 From PJ.Gen Require Import LookupEncGen OptionsGen EncodeGen.
-From PJ.Tie Require Import LookupEncTie EncodeTie.
+From PJ.Tie Require Import StrN LookupEncTie EncodeTie.
 Local Open Scope Z_scope.
 
 Section Stmt.
